@@ -279,6 +279,12 @@ func oneStream(c *hx.Ctx, k int, r *rand.Rand) {
 			}
 		} else {
 			n := r.IntN(21)
+			if r.IntN(25) == 0 {
+				// "0..n records": now and then a message with hundreds of records, of every residue modulo small
+				// powers of two (a convertor that works in chunks must not lose the remainder)
+				n = 60 + r.IntN(400)
+				c.Add("messages_with_60_to_460_records", 1)
+			}
 			if n >= 2 {
 				multi = true
 			}
